@@ -65,13 +65,21 @@ func (kf *knownFile) classify(prop string, w *check.World, v *check.Violation) s
 // violating item, whatever the property being checked (used to decide whether a
 // world can continue past the violation).
 func (kf *knownFile) classifyAny(w *check.World, v *check.Violation) string {
-	for i := range kf.Findings {
-		f := &kf.Findings[i]
-		if f.Status != "known" {
-			continue
-		}
-		if pred := triggers[f.Trigger]; pred != nil && pred(w, v) {
-			return f.ID
+	// findings whose trigger is the exact branch condition of the library (K3, F5) are
+	// tried before the ones with a textual trigger (K1, K2), which hold for a whole file
+	for pass := 0; pass < 2; pass++ {
+		for i := range kf.Findings {
+			f := &kf.Findings[i]
+			if f.Status != "known" {
+				continue
+			}
+			textual := f.ID == "K1" || f.ID == "K2"
+			if textual != (pass == 1) {
+				continue
+			}
+			if pred := triggers[f.Trigger]; pred != nil && pred(w, v) {
+				return f.ID
+			}
 		}
 	}
 	return ""
